@@ -126,6 +126,9 @@ ApiStep(root, c, env) ==
                   ELSE Res(Put([o EXCEPT !.cmt = c.val, !.mod = TRUE]), "ok", <<>>, <<>>, env.nv2)
              [] c.op = "addtsec" ->
                   IF o.type # "sec" THEN NoChange("fail")
+                  (* a single section that was removed is created again, with its declared defaults *)
+                  ELSE IF o.flags \cap {"MULTI", "TITLE"} = {} /\ c.val = Null /\ o.vals = <<>>
+                    THEN Res(Put([o EXCEPT !.vals = <<NewSection(o, Null)>>, !.mod = TRUE]), "ok", <<>>, <<>>, env.nv2)
                   ELSE IF ~({"MULTI", "TITLE"} \subseteq o.flags) THEN NoChange("unspec")
                   ELSE IF FindTitle(o.vals, c.val, "NOCASE" \in o.flags) # 0 THEN NoChange("fail")
                   ELSE Res(Put([o EXCEPT !.vals = Append(@, NewSection(o, c.val)), !.mod = TRUE]),
